@@ -27,6 +27,14 @@ def feats(**kw):
     return f
 
 
+# names where one is a proper prefix of another: the library matches facts by substring search in
+# serialized text, so o1 / o10 and p1 / p10 are deliberately close
+ONAMES = ["o1", "o10", "o2", "o20", "o3", "o30", "o4", "o40"]
+PNAMES = ["p1", "p10", "p2", "p20"]
+FNAMES = ["f1", "f10", "f2", "f20"]
+KNAMES = ["k1", "k10"]
+
+
 def gen_vocab(ch, ft):
     typed = ft["typed"]
     types = []
@@ -49,19 +57,19 @@ def gen_vocab(ch, ft):
     if ft["constants"] and ch.flag(0.5):
         for i in range(ch.int(1, 2)):
             t = pick_type()
-            consts.append([f"k{i}", "object" if t == "agent" else t])
+            consts.append([KNAMES[i], "object" if t == "agent" else t])
     preds = []
     for i in range(ch.int(1, 4)):
         ar = min(ch.weighted([(3, 1), (3, 2), (2, 0), (1, 3)]), ft["max_arity"])
-        preds.append([f"p{i}", [[f"?a{j}", pick_type()] for j in range(ar)]])
+        preds.append([PNAMES[i], [[f"?a{j}", pick_type()] for j in range(ar)]])
     funcs = []
     if ft["numeric"]:
         for i in range(ch.int(1, 3)):
             ar = min(ch.weighted([(3, 1), (2, 0), (2, 2), (1, 3)]), ft["max_arity"])
-            funcs.append([f"f{i}", [[f"?a{j}", pick_type()] for j in range(ar)]])
+            funcs.append([FNAMES[i], [[f"?a{j}", pick_type()] for j in range(ar)]])
     objects = []
     for i in range(ch.int(2, 4)):
-        objects.append([f"o{i}", pick_type()])
+        objects.append([ONAMES[i], pick_type()])
     if ft.get("agent_first"):
         objects = [o for o in objects if o[1] != "agent"]
         for i in range(ch.int(2, 4)):
@@ -356,10 +364,10 @@ def gen_domain(ch, ft=None):
         for _, t in a["params"]:
             have = [n for n, ot in objects + dom["constants"] if types.is_sub(ot, t)]
             if not have:
-                k = len(objects)
-                while any(n == f"o{k}" for n, _ in objects):
+                k = 0
+                while any(n in (ONAMES[k % len(ONAMES)] + "x" * (k // len(ONAMES)), f"ag{k}") for n, _ in objects):
                     k += 1
-                objects.append([f"ag{k}" if t == "agent" else f"o{k}", t])
+                objects.append([f"ag{k}" if t == "agent" else ONAMES[k % len(ONAMES)] + "x" * (k // len(ONAMES)), t])
     return dom, objects
 
 
